@@ -131,6 +131,7 @@ func genHandFileOpt(t *rapid.T, o handOpts) (root *mnode, data []byte, writer, d
 	noFileSize := allowOldStyle && rapid.IntRange(0, 2).Draw(t, "noFileSize") == 0 // FileSize is optional: the length then comes from the links
 	tsizeStyle := rapid.SampledFrom([]int{0, 0, 1, 2, 3}).Draw(t, "tsizeStyle")
 	spareBlockSize := o.SpareBlockSize && rapid.IntRange(0, 3).Draw(t, "spareBlockSize") == 0
+	oldStyleMixed := false
 	var chunks [][]byte
 	pattern := ""
 	big := o.BigChunks && rapid.IntRange(0, 5).Draw(t, "bigChunks") == 0
@@ -158,8 +159,16 @@ func genHandFileOpt(t *rapid.T, o handOpts) (root *mnode, data []byte, writer, d
 		}
 		return &mnode{IsRaw: true, Raw: c}, uint64(len(c))
 	}
+	// mixed: each interior node decides for itself which of the optional sizes it records (a root without any over children
+	// that have them, or the other way round - DAGs touched by more than one writer)
+	mixed := allowOldStyle && pbLeaves && rapid.IntRange(0, 3).Draw(t, "mixedSizes") == 0
 	interior := func(kids []*mnode, sizes []uint64, role int) (*mnode, uint64) {
 		m := &mnode{HasData: true, UFS: &ufsFields{Type: typeOf(role)}}
+		noBlockSizes, noFileSize := noBlockSizes, noFileSize
+		if mixed {
+			noBlockSizes, noFileSize = rapid.Bool().Draw(t, "nodeNoBlockSizes"), rapid.Bool().Draw(t, "nodeNoFileSize")
+			oldStyleMixed = oldStyleMixed || noBlockSizes
+		}
 		tot := uint64(0)
 		for i, k := range kids {
 			// Tsize only has to be right for raw leaves (the reader trusts it there); for dag-pb children it is a hint that
@@ -205,7 +214,10 @@ func genHandFileOpt(t *rapid.T, o handOpts) (root *mnode, data []byte, writer, d
 		kids, sizes = []*mnode{a, b}, []uint64{as, bs}
 	}
 	root, _ = interior(kids, sizes, 1)
-	writer = fmt.Sprintf("hand-%s-pb=%v-l%d-bs=%v-fs=%v-raw=%d-ts=%d-spare=%v", pattern, pbLeaves, levels, !noBlockSizes, !noFileSize, rawTyped, tsizeStyle, spareBlockSize)
+	if mixed {
+		noBlockSizes = oldStyleMixed // (for the labels below: "some node lacks BlockSizes")
+	}
+	writer = fmt.Sprintf("hand-%s-pb=%v-l%d-bs=%v-fs=%v-raw=%d-ts=%d-spare=%v-mixed=%v", pattern, pbLeaves, levels, !noBlockSizes, !noFileSize, rawTyped, tsizeStyle, spareBlockSize, mixed)
 	desc = fmt.Sprintf("hand-made file chunks=%s (0 = empty) pbLeaves=%v levels=%d blocksizes=%v filesize=%v rawTyped=%d (0 none, 1 root, 2 interior, 3 leaves, 4 all) tsizeStyle=%d (0 content, 1 cumulative, 2 block-local, 3 absent) spareBlockSize=%v len=%d", pattern, pbLeaves, levels, !noBlockSizes, !noFileSize, rawTyped, tsizeStyle, spareBlockSize, len(data))
 	return
 }
